@@ -237,6 +237,7 @@ def gen_cases(prop, seed, n_types, per):
     if prop in ("C01", "C02", "C03", "C08", "C14") and not KINDS_BY_PROP.get(prop): g.kinds = g.kinds + ["depreq", "aggregate"]
     if prop in ("C01", "C02", "C03", "C13"): g.kinds = g.kinds + ["cunion"]          # constraints attached to a union reach its alternatives
     if prop == "C08": g.kinds = g.kinds + ["postinit", "postinit", "plain", "plain", "plainskip", "plainskip"]
+    if prop == "C03": g.kinds = g.kinds + ["plain", "plain"]
     types = []
     for _ in range(n_types):
         t = g.ty(3)
@@ -353,6 +354,16 @@ def evaluate(prop, t, tp, d, o, ns, mo):
         try: deserialize(tp, data, additional_properties=o["ap"], fall_back_on_default=o["fbod"], no_copy=o["nc"], coerce=o["coerce"])
         except Exception: pass
         if snapshot(data) != snap: fails.append("input-modified")
+        if "dataclass" in t.features():
+            # ... and under the other way of building dataclass instances (settings.deserialization.override_dataclass_constructors)
+            from apischema import settings
+            prev = settings.deserialization.override_dataclass_constructors
+            try:
+                settings.deserialization.override_dataclass_constructors = not prev
+                k5 = {}; alt5 = run_impl(tp, d, o, keep=k5)
+            finally: settings.deserialization.override_dataclass_constructors = prev
+            if kind_of(alt5) == "crash" and ik != "crash": fails.append("crash:" + alt5["crash"] + "(override_dataclass_constructors)")
+            if snapshot(k5["data"]) != snapshot(instantiate(d)): fails.append("input-modified"); info["input_after(override_dataclass_constructors)"] = repr(k5["data"])[:200]
     elif prop == "C08":
         info["in_scope"] = bool(sc.get("scope"))
         outs = {}
